@@ -25,6 +25,7 @@ type chainInfo struct {
 // field/index/deref/slice/phi derivations. It returns every root (phis fan out) together with
 //   - types:  the types of the container pointers passed on the way (x in x.f, x[i], *x), and
 //   - fields: the struct fields that were *loaded from* on the way (links followed), innermost first.
+//
 // The cell being written itself is not a link that was followed.
 func chase(v ssa.Value) []chainInfo {
 	var out []chainInfo
